@@ -26,7 +26,7 @@ func init() {
 		Level: "exploration",
 		Rule: "source trees {random, fan-out of 300-1500 entries with long names so the listing spans several 32KiB chunks, synthetic trees with a single stat larger than a chunk} x selectors {none, all, files only, dirs only, random nested subset closed under hard-link sources, by-name} x sources that contain an entry named .fsutil-metadata (file, symlink, empty dir) before and between selected files x prior destinations {empty, mutated copy, one holding a listing file / a symlink / a directory with that name}; real Send + real Receive(MetadataOnly); the listing file is decoded as little-endian length-prefixed records and compared with the STATs on the wire, dest minus the listing is compared with the projection of the source, REQ ids and notifications are checked. " +
 			"non-trivial = at least one selected regular file below a non-selected directory, or a multi-chunk listing, or a source entry with the listing name; distinct by (tree, selector, prior) fingerprint",
-		Assumptions: []string{"root", "selectors select the link source of every hard link they select", "a directory named .fsutil-metadata in the source is empty"},
+		Assumptions: []string{"root", "selectors select the link source of every hard link they select", "a directory named .fsutil-metadata in the source is empty, except in the cases that exhibit known finding K7"},
 		Cases: func(tier string) int {
 			if tier == "thorough" {
 				return 100000
@@ -92,6 +92,7 @@ func c19Run(c *core.Ctx) *core.Result {
 		r.Count("sources_with_non_utf8_names", 1)
 	}
 	// an entry with the listing file's name
+	listingDependents := false
 	withListingEntry := R.P(1, 3)
 	if withListingEntry && src.Get(listingName) == nil {
 		switch R.Intn(3) {
@@ -101,7 +102,15 @@ func c19Run(c *core.Ctx) *core.Result {
 			src.Put(tree.Entry{Path: listingName, Type: tree.Symlink, Perm: 0777, Target: "a", Mtime: 1e18})
 		case 2:
 			src.Put(tree.Entry{Path: listingName, Type: tree.Dir, Perm: 0755, Mtime: 1e18})
+			if R.P(1, 3) {
+				// ... with something below it (known finding K7: the receiver
+				// drops the entry before its validators see it, what depends
+				// on it is then refused)
+				src.Put(tree.Entry{Path: listingName + "/child", Type: tree.File, Perm: 0644, Mtime: 1e18, Data: []byte("below the listing name")})
+				listingDependents = true
+			}
 		}
+		src.Sort()
 	}
 	// selector
 	selKind := core.Pick(R, []string{"none", "all", "files", "dirs", "subset", "subset", "subset", "byname"})
@@ -169,7 +178,7 @@ func c19Run(c *core.Ctx) *core.Result {
 					}
 				}
 			}
-			if keep && e.Path != listingName && shape != "fanout" {
+			if keep && e.Path != listingName && !strings.HasPrefix(e.Path, listingName+"/") && shape != "fanout" {
 				prior.Entries = append(prior.Entries, e.Clone())
 			}
 		}
@@ -248,6 +257,10 @@ func c19Run(c *core.Ctx) *core.Result {
 	}
 	det := map[string]any{"config": desc, "source": src.Lines(), "selected": sortedKeys(selected), "prior": old.Lines()}
 	if res.SendErr != nil || res.RecvErr != nil {
+		if listingDependents && res.RecvErr != nil && (strings.Contains(res.RecvErr.Error(), "changes out of order") || strings.Contains(res.RecvErr.Error(), "invalid link")) {
+			r.ViolateD("listing-name-entry-with-dependents", det, "%s: the source holds a directory named %s with an entry below it; the metadata-only receive fails with %v (the same tree transfers without a selector)", desc, listingName, res.RecvErr)
+			return r
+		}
 		if rmode == "plain" {
 			// the real sender, a legal tree, no fault: the receive has to
 			// write its listing and the selected entries
